@@ -153,6 +153,12 @@ NASTY_CHUNKS = ['\\', '\\n', '\\t', '\\x4', '\\u12', '\\N', '\\0', "\\'", "'", "
                 '\\b', '\\f', '\\r']
 
 
+# pieces of one unbroken word of 90-200 characters in which most positions are a backslash or the letter after one: wherever
+# a renderer folds or cuts such a word, it does so inside or next to an escape sequence
+_ESC_PIECES = ['\\', '\\', '\\n', '\\t', '\\\\', 'n', 't', 'ab', "\\'", '\\x41', 'u0041', '\\N', '0', '\\srv01', '.']
+LONG_ESCAPE_WORD = st.lists(st.sampled_from(_ESC_PIECES), min_size=50, max_size=80).map(''.join)
+
+
 def text_strategy(kind):
     if kind == 'short':
         return ctext('abcdefgh XYZ019.', min_size=0, max_size=8)
@@ -162,7 +168,7 @@ def text_strategy(kind):
                          st.lists(words, min_size=2, max_size=3).map(lambda l: '\r\n   '.join(l)))
     if kind == 'nasty':
         chunk = st.one_of(st.sampled_from(NASTY_CHUNKS), ctext(PLAIN_TEXT_ALPHABET, max_size=12),
-                          utext(6))
+                          utext(6), st.sampled_from(NASTY_CHUNKS), ctext(PLAIN_TEXT_ALPHABET, max_size=12), LONG_ESCAPE_WORD)
         return st.lists(chunk, min_size=0, max_size=6).map(lambda l: ''.join(l).replace('"', ''))
     if kind == 'pysafe':
         # the 'nasty' alphabet minus backslashes (class of finding D18)
